@@ -48,12 +48,85 @@ def linecut_cases(rng, quick):
             if ln.startswith(b'REMARK   3') or ln.startswith(b'REMARK 200'):
                 key = ln[:10] + b'|' + ln[10:].split(b':')[0].strip()[:24]
             k = seen.get(key, 0)
-            if k < per_type and len(ln) > 6:
+            if k < per_type and len(ln.rstrip()) > (11 if ln.startswith(b'REMARK') else 6):
                 seen[key] = k + 1
                 for col in range(0, len(ln) + 1):
                     for pad in ((0,) if quick else (0, 1, 2)):
                         lines.append('linecut\tpdb %d %s %d %d %d' % (rng.randint(0, 7), path, pos, col, pad))
             pos += len(ln) + 1
+    return lines
+
+
+def linedel_cases(rng, quick):
+    """PDB records with a span deleted in the middle: every word of the line (a keyword such as ANGSTROM that a strstr()
+    looks for, a number, a name) is moved to the column just behind the record key (6, 10 or 11), and the line is
+    also cut right after that word.  Reaches code that indexes a fixed column after finding a keyword anywhere."""
+    import re
+    lines = []
+    seen = {}
+    files = [vlib.ROOT + '/data/all_records.pdb'] + [p for (p, ext) in sample_files() if ext in ('.pdb', '.ent')]
+    per_type = 1 if quick else 3
+    for path in files:
+        data = open(path, 'rb').read()[:65536]
+        if not (data.startswith(b'HEADER') or b'\nATOM  ' in data or b'\nHETATM' in data):
+            continue
+        pos = 0
+        for ln in data.split(b'\n'):
+            key = ln[:10] if ln.startswith(b'REMARK') else ln[:6]
+            if ln.startswith(b'REMARK   3') or ln.startswith(b'REMARK 200'):
+                key = ln[:10] + b'|' + ln[10:].split(b':')[0].strip()[:24]
+            k = seen.get(key, 0)
+            words = list(re.finditer(rb'[^ ]+', ln[11:]))
+            if k < per_type and words:
+                seen[key] = k + 1
+                for m in words:
+                    ws, we = 11 + m.start(), 11 + m.end()
+                    for col in (6, 10, 11):
+                        if ws > col:
+                            for cut in (0, we - ws, we - ws + 1):
+                                lines.append('linedel\tpdb %d %s %d %d %d %d' % (rng.randint(0, 7), path, pos, col, ws - col, cut))
+            pos += len(ln) + 1
+    return lines
+
+
+def json_cases(rng, n):
+    """Structure-aware mmJSON: documents of the shape {data_x: {category: {tag: [values]}}} whose values are ANY JSON
+    value (string, number spellings, null, booleans, arrays of mixed / nested elements, objects), with columns of
+    equal and unequal length, empty arrays, wrong nesting depth, and non-object top levels."""
+    def scalar():
+        return rng.choice(['"a"', '"a b"', '""', '"\\u00e9"', '1', '-2.5', '1e5', '1.e5', '0', '-0', '1E-3', '12345678901234567890',
+                           'null', 'true', 'false', '"?"', '"."', '"\\n"', '1.5(3)'])
+    def value(depth=0):
+        r = rng.random()
+        if r < 0.55 or depth > 2:
+            return scalar()
+        if r < 0.85:
+            return '[' + ','.join(value(depth + 1) for _ in range(rng.choice([0, 1, 2, 2, 3]))) + ']'
+        return '{' + ','.join('"k%d":%s' % (i, value(depth + 1)) for i in range(rng.choice([0, 1, 2]))) + '}'
+    lines = []
+    for _ in range(n):
+        blocks = []
+        for bi in range(rng.choice([1, 1, 2])):
+            cats = []
+            for ci in range(rng.choice([0, 1, 2, 3])):
+                nrow = rng.choice([0, 1, 1, 2, 3])
+                cols = []
+                for ti in range(rng.choice([0, 1, 2, 3])):
+                    r = rng.random()
+                    if r < 0.75:
+                        col = '[' + ','.join(value() for _ in range(nrow if rng.random() < 0.85 else rng.choice([0, 1, 4]))) + ']'
+                    else:
+                        col = value()
+                    cols.append('"%s":%s' % (rng.choice(['x', 'y', 'id', 'x']) if rng.random() < 0.2 else 't%d' % ti, col))
+                cat = '{' + ','.join(cols) + '}' if rng.random() < 0.9 else value()
+                cats.append('"%s":%s' % (rng.choice(['c%d' % ci, 'atom_site', 'cell', '']), cat))
+            blk = '{' + ','.join(cats) + '}' if rng.random() < 0.93 else value()
+            blocks.append('"%s":%s' % (rng.choice(['data_a', 'data_', 'a', 'data_B2']), blk))
+        doc = '{' + ','.join(blocks) + '}' if rng.random() < 0.95 else value()
+        if rng.random() < 0.05 and doc:
+            k = rng.randrange(len(doc))
+            doc = doc[:k] + rng.choice(['', ',', ']', '[', '"', '\\', '}']) + doc[k + 1:]
+        lines.append('bytes\tjson %d %s' % (rng.randint(0, 7), fam_sym.hx(doc.encode())))
     return lines
 
 
@@ -154,6 +227,8 @@ def run(chk):
                                                          -1 if rng.random() < 0.7 else rng.randint(0, size),
                                                          rng.choice([1, 1, 2, 3, 5, 10, 30]), rng.randint(1, 10 ** 9)))
     lines += linecut_cases(rng, quick)
+    lines += linedel_cases(rng, quick)
+    lines += json_cases(rng, 3000 if quick else 100000)
     # one value of a parsed CIF file replaced by a special value (missing, zero, negative, huge, wrong type ...),
     # then the conversions: aimed at index arithmetic on category values (sequence numbers, ids, operation expressions)
     cif_files = [p_ for (p_, ext) in files if ext in ('.cif', '.ent')]
